@@ -29,6 +29,8 @@ ASSUMPTIONS = [
     "the lexer reads its source only forward, so (source, _position) is modelled as (total length, unread suffix)",
     "error positions of rejected texts are not compared (only 0 <= position <= len and that rendering succeeds)",
     "bytes input is compared only for texts that have a UTF-8 encoding (no lone surrogates)",
+    "source types: the documented signature is Union[str, bytes]; instances of subclasses of str / bytes are in scope (duck typing), "
+    "bytearray / memoryview are not (today: TypeError) - their outcome is only recorded in the evidence",
 ]
 TRUSTED = ["table extraction in corr/C01_lex.py (live module values cross-checked against the source text with ast)"]
 
@@ -674,6 +676,7 @@ def run(ctx):
               '\ufeff{a}', '{a}\ufeff', '"\u0663" # \u0663 \n\n', '{ a # \xe9\n }\n\n\n']:
         bytes_texts.append(t)
     oracle_bytes(ctx, bytes_texts)
+    oracle_source_types(ctx, rng, [a for _, a, _ in rendered[: ctx.n(25, 250)]] + [mutate(rng, a) for _, a, _ in rendered[: ctx.n(10, 100)]])
     newline_error_stream(ctx, rng, [a for _, a, _ in rendered[: ctx.n(80, 600)]])
 
     # single lexemes from the generators (O2)
@@ -848,6 +851,67 @@ def parse_text_stream(ctx, rng):
             break
         parse_text_cases(ctx, cases[i:i + 500], "text")
     ctx.extra["parse_text_cases"] = len(cases)
+
+
+class _StrSub(str):
+    """plain subclass of str (Markup / SafeString style wrapper)"""
+
+
+class _StrSubOverrides(str):
+    """subclass overriding __str__ / __getitem__ harmlessly"""
+
+    def __str__(self):
+        return str.__str__(self)
+
+    def __getitem__(self, i):
+        return str.__getitem__(self, i)
+
+
+class _BytesSub(bytes):
+    """plain subclass of bytes"""
+
+
+def source_variants(text):
+    """the SOURCE TYPES the entry points accept (documented: Union[str, bytes]; subclasses by duck typing)"""
+    from enum import Enum
+    out = [("str-subclass", _StrSub(text)), ("str-subclass-overrides", _StrSubOverrides(text)),
+           ("str-enum-mixin", Enum("Q", {"X": text}, type=str).X)]
+    try:
+        out.append(("bytes-subclass", _BytesSub(text.encode("utf8"))))
+    except UnicodeEncodeError:
+        pass
+    return out
+
+
+def oracle_source_types(ctx, rng, texts):
+    """parse / parse_value / parse_type and the Lexer give, on every accepted source type, the outcome they give on the
+    plain str of the same text (same tree, or the same class of rejection)."""
+    from corr import C01_parse as PP
+    hand = ["{ a }", "{ a(b: \"\xe9\") }", "# \U0001F600\n{ a }", "[1, 2.5, \"x\"]", "[Int!]!", "type A { a: Int }", "{ a", "?", "", "\"\\", "1e05", "$v"]
+    for i, t in enumerate(hand + list(texts)):
+        ref_lex = real_lex(t)
+        combos = PP.FLAG_COMBOS if i < len(hand) else [rng.choice(PP.FLAG_COMBOS)]
+        for label, src in source_variants(t):
+            ctx.count()
+            ctx.stat("source-type:%s" % label)
+            rl = real_lex(src)
+            if rl != ref_lex:
+                ctx.fail("source-type-differs:lexer:%s:%s" % (label, rl[1] if rl[0] == "internal" else rl[0]),
+                         "Lexer(%s) differs from Lexer(str) on the same text" % label,
+                         {"part": PART, "kind": "source_type", "text": cps(t), "variant": label, "entry": "lexer"})
+            for e in ("document", "value", "type"):
+                for fl in combos:
+                    ref = PP.real_parse(t, e, fl)
+                    got = PP.real_parse(src, e, fl)
+                    same = got[0] == ref[0] and (ref[0] != "ok" or got[1].to_dict() == ref[1].to_dict())
+                    if not same:
+                        ctx.fail("source-type-differs:%s:%s:%s" % (e, label, got[0]),
+                                 "parsing a %s differs from parsing the plain str of the same text (%s instead of %s)" % (label, got[0], ref[0]),
+                                 {"part": PART, "kind": "source_type", "text": cps(t), "variant": label, "entry": e, "flags": fl})
+    # outside the documented signature (Union[str, bytes]): recorded, not judged
+    for name, mk in (("bytearray", bytearray), ("memoryview", memoryview)):
+        r = PP.real_parse(mk(b"{a}"), "document", FLAG0)
+        ctx.extra["undocumented_source_type:%s" % name] = r[0]
 
 
 def oracle_bytes(ctx, texts):
@@ -1072,6 +1136,16 @@ def replay(ctx, data):
     r = real_lex(text)
     if kind == "bytes":
         return real_lex(text) == real_lex(text.encode("utf8"))
+    if kind == "source_type":
+        from corr import C01_parse as PP
+        src = dict(source_variants(text)).get(inp.get("variant"))
+        if src is None:
+            return True
+        if inp.get("entry") == "lexer":
+            return real_lex(src) == real_lex(text)
+        fl = inp.get("flags") or FLAG0
+        ref, got = PP.real_parse(text, inp["entry"], fl), PP.real_parse(src, inp["entry"], fl)
+        return got[0] == ref[0] and (ref[0] != "ok" or got[1].to_dict() == ref[1].to_dict())
     if kind == "parse_contract":
         q = real_parse_contract(text)
         return q[0] == "ok" or (q[0] == "syntax" and not q[2])
